@@ -1,4 +1,106 @@
-/- driver operations of C15 (stub: no model yet) -/
+/- driver operations of C15: the evo_traj plan and the rational semantics of invert / transform -/
+import EvoModel.Model.TrajPlan
 namespace Evo.Drv.C15
-def handle (_op : String) (_args : List String) : Option String := none
+open Evo Evo.TrajPlan
+
+def b? (s : String) : Option Bool := if s = "1" then some true else if s = "0" then some false else none
+
+def sub? : String → Option Sub
+  | "tum" => some .tum | "kitti" => some .kitti | "euroc" => some .euroc | _ => none
+
+def plane? : String → Option (Option Plane)
+  | "-" => some none | "xy" => some (some .xy) | "xz" => some (some .xz) | "yz" => some (some .yz) | _ => none
+
+def showB (b : Bool) : String := if b then "1" else "0"
+def showPlane : Plane → String | .xy => "xy" | .xz => "xz" | .yz => "yz"
+def showFile : TfFile → String | .left => "left" | .right => "right"
+
+def showInt (i : Int) : String := toString i
+
+def showStep : Step → String
+  | .downsample n => s!"downsample:{n}"
+  | .motionFilter d a => "motion_filter:" ++ showRat d ++ ":" ++ showRat a
+  | .merge => "merge"
+  | .tOffset dt => "t_offset:" ++ showRat dt
+  | .sync md => "sync:" ++ showRat md
+  | .align c o n => "align:" ++ showB c ++ ":" ++ showB o ++ ":" ++ showInt n
+  | .alignOrigin => "align_origin"
+  | .transform f i r p => "transform:" ++ showFile f ++ ":" ++ showB i ++ ":" ++ showB r ++ ":" ++ showB p
+  | .project p => "project:" ++ showPlane p
+  | .exportTum => "export_tum"
+  | .exportKitti => "export_kitti"
+
+def showDie : Die → String
+  | .parser => "parser"
+  | .mergeKitti => "merge_kitti"
+  | .mergeNothing => "merge_nothing"
+  | .offsetWithoutStamps => "offset_without_stamps"
+  | .nToAlignUseless => "n_to_align_useless"
+  | .noReference => "no_reference"
+  | .tumWithoutStamps => "tum_without_stamps"
+
+def showSteps (l : List Step) : String := if l.isEmpty then "-" else " ".intercalate (l.map showStep)
+
+/-- 19 flag tokens in the field order of `Flags` -/
+def readFlags : List String → Option (Flags × List String)
+  | sub :: ref :: nt :: ds :: mf :: mg :: to :: nta :: sy :: al :: cs :: ao :: tl :: tr :: inv :: pr :: pl :: st :: sk :: rest => do
+      let f : Flags := {
+        sub := ← sub? sub, ref := ← b? ref, noTraj := ← b? nt, downsample := ← b? ds, motionFilter := ← b? mf,
+        merge := ← b? mg, tOffset := ← b? to, nToAlign := ← b? nta, sync := ← b? sy, align := ← b? al,
+        correctScale := ← b? cs, alignOrigin := ← b? ao, transformLeft := ← b? tl, transformRight := ← b? tr,
+        invert := ← b? inv, propagate := ← b? pr, plane := ← plane? pl, saveTum := ← b? st, saveKitti := ← b? sk }
+      some (f, rest)
+  | _ => none
+
+def readPose (l : List String) : Option (Pose Rat × List String) := do
+  let (a, rest) ← takeN 12 l
+  let rs ← parseRats? a
+  let p ← Pose.ofList rs
+  some (p, rest)
+
+/-- ops:
+  `plan <19 flags> downsample mfDist mfAngle tOffset tMaxDiff nToAlign` → `OK steps… | refsteps…` or `DIE reason`
+  `invert s M`        → `se3|sim3` and the 12 entries of the inverse used by `run`
+  `invertold M`       → the 12 entries `se3_inverse` returns (code before fix 0088a59)
+  `isse3 M`           → `1|0` and the margin of the tolerance tests
+  `mul A B`           → `A·B`
+  `transform rightMul propagate s T k poses…` → transformed poses -/
+def handle (op : String) (args : List String) : Option String :=
+  match op, args with
+  | "plan", rest => do
+      let (f, rest) ← readFlags rest
+      match rest with
+      | [ds, d, a, to, md, n] => do
+          let o : TrajOpts := { flags := f, downsample := ← ds.toNat?, mfDistance := ← parseRat? d,
+                                mfAngleDeg := ← parseRat? a, tOffset := ← parseRat? to, tMaxDiff := ← parseRat? md,
+                                nToAlign := ← n.toInt? }
+          match trajPlan o with
+          | .error d => some ("DIE " ++ showDie d)
+          | .ok l => some ("OK " ++ showSteps l ++ " | " ++ showSteps (refPlan o))
+      | _ => none
+  | "invert", s :: rest => do
+      let s ← parseRat? s
+      let (m, _) ← readPose rest
+      if s = 0 then none else
+      some ((if isSe3Tol m then "se3 " else "sim3 ") ++ showRats (invertTransform m s).toList)
+  | "invertold", rest => do
+      let (m, _) ← readPose rest
+      some (showRats (invertTransformOld m).toList)
+  | "isse3", rest => do
+      let (m, _) ← readPose rest
+      some (showB (isSe3Tol m) ++ " " ++ showRat (se3Margin m))
+  | "mul", rest => do
+      let (a, rest) ← readPose rest
+      let (b, _) ← readPose rest
+      some (showRats (a.mul b).toList)
+  | "transform", r :: p :: s :: rest => do
+      let r ← b? r
+      let p ← b? p
+      let s ← parseRat? s
+      let (t, rest) ← readPose rest
+      let (poses, _) ← readPoseList rest
+      if s = 0 then none else
+      some (showPoses (applyTransform t r p s poses))
+  | _, _ => none
+
 end Evo.Drv.C15
